@@ -93,11 +93,20 @@ theorem callbacks_fire_in_order (o : WOpts) (d : Deferred) (hc : d.closed = fals
   simp only [List.length_nil, List.nil_append] at this
   simp [Deferred.step, hc, this]
 
-/-- (3b) — a test, not a theorem: a callback that registers another callback while it runs (`OnPut` from
-    inside a callback) appends to the very list being walked, so the new one fires later in the SAME Put,
-    after everything registered before it, and stays registered for the Puts to come. The general statement
-    is not proved; the model carries the behaviour and the tie compares it on every run. -/
-example : fireLoop 10 0 [{ id := 1, once := true, spawn := some (9, false) }, { id := 2, once := false }] []
+/-- (3b) **Callbacks are a queue, whatever they do.** Also when callbacks register further callbacks while
+    they run (`OnPut` from inside a callback — a "first byte" hook installing a counter): one Put takes the
+    registered callbacks in order, fires each once, lets whatever it registers join the END of the same walk
+    (so it fires later in the SAME Put), and keeps all but the once-only ones — the reference `specFire`.
+    The Go loop (index-based, removing in place, re-reading the list) is proved equal to it for every list. -/
+theorem callbacks_are_a_queue (o : WOpts) (d : Deferred) (hc : d.closed = false) (c : Cid) (data : Bytes) :
+    (d.step o (.put c data)).2.fired = (specFire (2 * d.cbs.length + 2) d.cbs).2 ∧
+    (d.step o (.put c data)).1.cbs = (specFire (2 * d.cbs.length + 2) d.cbs).1 := by
+  have := fireLoop_eq_specFire (2 * d.cbs.length + 2) [] d.cbs []
+  simp only [List.length_nil, List.nil_append] at this
+  simp [Deferred.step, hc, this]
+
+/-- non-vacuity / reading aid: a once-only callback that registers a persistent one -/
+example : specFire 6 [{ id := 1, once := true, spawn := some (9, false) }, { id := 2, once := false }]
     = ([{ id := 2, once := false }, { id := 9, once := false }], [1, 2, 9]) := by decide
 
 /-- (4) After Close every call reports the store as closed. -/
